@@ -9,7 +9,7 @@ INFO = {
                "constants define; a JSON number is converted to a double only by the documented arithmetic "
                "functions and the comparator; integer->float casts occur only at tabled sites; the printers write "
                "u64/i64 with a plain `{}` of that type. The number-as-string functions contain no floating-point "
-               "value and call only exact bigdecimal operations. NumberValue::eq on all pairs of 64-bit integer representations (incl. 2^53, 2^53+1, 2^64-1, -2^63) compares integers as integers.",
+               "value and call only exact bigdecimal operations. NumberValue::eq on all pairs of 64-bit integer representations (incl. 2^53, 2^53+1, 2^64-1, -2^63) compares integers as integers. JSON values are never identified by their order: no BTreeSet / BTreeMap / BinaryHeap keyed by JsonValue outside the tabled --sort-by buckets (Ord compares numbers as doubles, so two integers above 2^53 would be merged).",
     "not_decided": "That bigdecimal's + - * abs normalized cmp and std's str::parse are exact (trusted libraries), "
                    "and the equality of printed digits with input digits as a run-time statement.",
     "trusted": ["sa/tables/arithmetic.toml", "sa/tables/nas_exact.toml", "bigdecimal 0.4 operator impls are exact"],
